@@ -255,6 +255,30 @@ def run(ck, only=None):
                     ck.violation(f"{c.cid} target={t} form={vname} generation-failed", {"cid": c.cid, "target": t, "variant": vname, "predicate": f"gen|{t}", "why": str(r.get("err") or r.get("panic"))[:300]})
                 continue
             check_batch(ck, cases, r["inventory"], tabs[(t, name)], vname, t)
+    # the target selected the way a cargo build script selects it: no --target argument, TARGET (and the CARGO_CFG_* variables cargo
+    # sets next to it) in the environment. Rust triples and clang triples / cfg values are spelled differently (i686 vs x86, ...)
+    if not only or only.get("variant") == "env-target":
+        cfg_arch = {"x86_64": "x86_64", "i686": "x86", "aarch64": "aarch64", "armv7": "arm", "riscv64gc": "riscv64"}
+        env_targets = [("i686-unknown-linux-gnu", "i686-unknown-linux-gnu"), ("aarch64-unknown-linux-gnu", "aarch64-unknown-linux-gnu"), ("armv7-unknown-linux-gnueabihf", "armv7-unknown-linux-gnueabihf"),
+                       ("riscv64gc-unknown-linux-gnu", "riscv64-unknown-linux-gnu"), ("i686-pc-windows-msvc", "i686-pc-windows-msvc")]
+        if ck.tier == "quick":
+            env_targets = env_targets[:2] + env_targets[4:]
+        name0, cases0 = batches[0]
+        for rust_t, clang_t in env_targets:
+            if only and only.get("target") != rust_t:
+                continue
+            arch = rust_t.split("-")[0]
+            env = dict(common.ENV, TARGET=rust_t, HOST="x86_64-unknown-linux-gnu", CARGO_CFG_TARGET_ARCH=cfg_arch[arch],
+                       CARGO_CFG_TARGET_OS="windows" if "windows" in rust_t else "linux", CARGO_CFG_TARGET_POINTER_WIDTH="32" if arch in ("i686", "armv7") else "64")
+            r = common.run_jobs([{"id": "e", "args": [os.path.join(wd, f"{name0}.h"), "--formatter", "none"], "inventory": True, "text": False, "timeout": 120, "fresh": True}], wd, timeout=120, env=env)["e"]
+            tab, err = (tabs[(clang_t, name0)], None) if (clang_t, name0) in tabs else clang_table(cases0, clang_t, wd, name0)
+            if tab is None:
+                raise common.Machinery(f"clang cannot produce the constant table for {clang_t}: {err}")
+            if r["status"] != "ok":
+                ck.count()
+                ck.violation(f"env-target {rust_t} generation-failed", {"variant": "env-target", "target": rust_t, "why": str(r)[:200]})
+                continue
+            check_batch(ck, cases0, r["inventory"], tab, "env-target", rust_t)
     for name, cases in batches:
         if f"lt|on|{name}" not in res:
             continue
